@@ -21,8 +21,8 @@ def write_conf(model_dir, aperture_dependent, logd_step=0.02, version=1, name='v
             f.write('version = %d\n' % version)
 
 
-def write_convolved(model_dir, fname, wav_um, names, flux, err, apertures_au=None):
-    """one convolved/<fname>.fits; flux, err: array (n_models, n_ap) in mJy"""
+def write_convolved(model_dir, fname, wav_um, names, flux, err, apertures_au=None, unit=None):
+    """one convolved/<fname>.fits; flux, err: array (n_models, n_ap) in `unit` (default mJy)"""
     from sedfitter.convolved_fluxes import ConvolvedFluxes
     os.makedirs(os.path.join(model_dir, 'convolved'), exist_ok=True)
     c = ConvolvedFluxes()
@@ -30,8 +30,8 @@ def write_convolved(model_dir, fname, wav_um, names, flux, err, apertures_au=Non
     if apertures_au is not None:
         c.apertures = np.array(apertures_au, dtype=float) * u.au
     c.central_wavelength = wav_um * u.micron
-    c.flux = np.array(flux, dtype=float).reshape(len(names), -1) * u.mJy
-    c.error = np.array(err, dtype=float).reshape(len(names), -1) * u.mJy
+    c.flux = np.array(flux, dtype=float).reshape(len(names), -1) * (unit or u.mJy)
+    c.error = np.array(err, dtype=float).reshape(len(names), -1) * (unit or u.mJy)
     c.write(os.path.join(model_dir, 'convolved', fname + '.fits'), overwrite=True)
 
 
